@@ -23,6 +23,11 @@ RULE = ('include trees (depth<=4, fan-out<=3, a file included twice) with confli
         'package-relative names that also exist as plain files / in registered readers (built-in reader order), readers registered through the '
         'decorator form, print_includes_and_imports=True, own imports of the text given to parse_config, a missing absolute name (no location is '
         'tried or named), and an independent last-writer model of the store over the generated statements. '
+        'Second extension: search locations registered through a SEQUENCE of add_config_file_search_path calls in which already registered locations '
+        "(and '' = the current directory) are registered again later (the order of first registration still decides); directories carrying a "
+        'requested name in any search location / at a missing absolute name (not something anybody can read: the search moves on, or ends in the '
+        'IOError naming the locations); namespace packages spread over 1-3 entries of the Python path with the file in any non-empty subset of '
+        'the portions, at package depth 1-2, through all three entry points. '
         'distinct = (tree shape, cell placement pattern, #locations, #readers, entry point)')
 TIERS = {
     'quick': {'workers': 8, 'cases': 750, 'timeout': 600},
@@ -41,7 +46,11 @@ REQUIRED_BUCKETS = ['search:package-moved-on-python-path', 'search:namespace-dir
                     'second-file:later-location', 'second-file:memory-reader',
                     'search:plain-file-before-package-reader', 'search:package-reader-before-later-location', 'search:package-reader-before-registered-reader',
                     'readers:decorator-form', 'print-flag:parse_config_file', 'print-flag:files_and_bindings',
-                    'search:absolute-missing-with-locations', 'text:own-imports', 'model:last-writer-overrides-across-files']
+                    'search:absolute-missing-with-locations', 'text:own-imports', 'model:last-writer-overrides-across-files',
+                    # ---- second extension wave (missed seeded changes)
+                    'locations:re-registered', 'locations:cwd-re-registered', 'search:re-registration-must-not-reorder',
+                    'search:directory-of-that-name-passed-over', 'missing:name-exists-only-as-directory',
+                    'search:namespace-package-several-portions', 'search:namespace-package-file-in-later-portion']
 ORACLE_COUNTERS = ['oracle_evals', 'trees_compared', 'flattened_compared']
 _S = {}
 
@@ -118,9 +127,19 @@ def gen_file(rng, fid, depth, maxdepth, state):
 
 def iter_cases(ctx, rng, n):
   for i in range(n):
-    if i % 50 == 13:
-      yield {'kind': 'namespace-directory', 'form': rng.choice(['slash', 'dot']), 'via': rng.choice(['parse_config_file', 'include']),
-             'where': rng.choice(['nowhere', 'later-location', 'in-the-directory'])}
+    if i % 25 == 13:
+      # a namespace package: `portions` entries of the Python path each hold a directory of that name; the innermost package directory exists
+      # in the portions `sub_in`, the requested file in the portions `file_in` (a non-empty subset of them)
+      portions = rng.choice([1, 2, 2, 3])
+      sub_in = sorted(rng.sample(range(portions), rng.randrange(1, portions + 1)))
+      if portions > 1 and len(sub_in) == 1 and rng.random() < 0.7:
+        sub_in = list(range(portions))
+      file_in = sorted(rng.sample(sub_in, rng.randrange(1, len(sub_in) + 1)))
+      if len(sub_in) > 1 and rng.random() < 0.5:
+        file_in = [p for p in file_in if p != sub_in[0]] or [sub_in[-1]]
+      yield {'kind': 'namespace-directory', 'form': rng.choice(['slash', 'dot']), 'via': rng.choice(['parse_config_file', 'include', 'files_and_bindings']),
+             'where': rng.choice(['nowhere', 'later-location', 'in-the-directory', 'in-the-directory']),
+             'portions': portions, 'sub_in': sub_in, 'file_in': file_in, 'depth': rng.choice([1, 2, 2])}
       continue
     if i % 50 == 31:
       yield {'kind': 'package-moved', 'form': rng.choice(['slash', 'dot']), 'via': rng.choice(['parse_config_file', 'include']), 'end': rng.choice(['moved', 'removed'])}
@@ -163,7 +182,23 @@ def iter_cases(ctx, rng, n):
       holders += ['X', 'X']                            # 'X': the unknown name is one of the extra bindings
     if not holders:
       unknown = None
-    yield {'files': files, 'nloc': nloc, 'nread': nread, 'place': place,
+    # the calls of add_config_file_search_path, as indices of locations (0: '' = the current directory, which is registered from the start):
+    # every location once, in order, and sometimes locations that are registered already are registered AGAIN later on
+    loc_seq = list(range(1, nloc + 1))
+    if rng.random() < 0.45:
+      for _ in range(rng.choice([1, 1, 2])):
+        l = rng.randrange(0, nloc + 1)
+        first = loc_seq.index(l) + 1 if l else 0
+        loc_seq.insert(rng.choice([len(loc_seq), rng.randrange(first, len(loc_seq) + 1)]), l)
+    # directories that carry the NAME of a file: in search locations that do not hold the file itself / where a missing absolute name points
+    dirs = {}
+    for fid, f in files.items():
+      if rng.random() < 0.35:
+        if f['kind'] == 'abs':
+          dirs[fid] = ['abs']
+        else:
+          dirs[fid] = sorted(rng.sample(range(nloc + 1), rng.randrange(1, nloc + 2)))
+    yield {'files': files, 'nloc': nloc, 'nread': nread, 'place': place, 'loc_seq': loc_seq, 'dirs': dirs,
            'missing': missing, 'entry': entry, 'shape': shape,
            'finalize': rng.random() < 0.5, 'unknown': unknown,
            'unknown_in': rng.choice(holders) if holders else '0', 'twice': state['twice'], 'same_text_twice': state['same_text_twice'],
@@ -218,8 +253,9 @@ class World:
     for l in range(case['nloc']):
       d = os.path.join(self.base, 'L%d' % (l + 1))
       os.makedirs(d)
-      gin.add_config_file_search_path(d)
       self.locs.append(d)
+    for l in case['loc_seq']:                          # the registrations, in order; a location may be registered more than once
+      gin.add_config_file_search_path(self.locs[l])
     self.mem = []
     self.asked = []            # per in-memory reader: the paths its existence check was asked for, in order
     for k in range(case['nread']):
@@ -274,7 +310,24 @@ class World:
       lines.append(UNKNOWN_LINE)
     return '\n'.join(lines) + '\n'
 
+  def dir_locations(self, fid):
+    """The search locations (indices; 'abs' for an absolute name) where a DIRECTORY carries the name of this file. Never where the file
+    system holds the file itself, and for an absolute name only when the file is the missing one."""
+    f = self.case['files'][fid]
+    missing = self.case['missing'] is not None and str(self.case['missing']) == fid
+    out = []
+    for l in self.case['dirs'].get(fid, ()):
+      if l == 'abs':
+        if missing and f['kind'] == 'abs':
+          out.append(l)
+      elif f['kind'] != 'abs' and (missing or [l, 'fs'] not in [list(c) for c in self.case['place'][fid]]):
+        out.append(l)
+    return out
+
   def materialise(self):
+    for fid, f in self.case['files'].items():
+      for l in self.dir_locations(fid):
+        os.makedirs(self.names[fid] if l == 'abs' else os.path.join(self.locs[l] or self.cwd, self.names[fid]), exist_ok=True)
     for fid, f in self.case['files'].items():
       if self.case['missing'] is not None and str(self.case['missing']) == fid:
         continue
@@ -302,7 +355,19 @@ class World:
     readers in order. A package-relative name only means something to the package reader when no location prefix is in front of it."""
     return ['fs'] + (['pkg'] if l == 0 else []) + ['mem%d' % k for k in range(self.case['nread'])]
 
-  def chosen_cell(self, fid):
+  def order(self, keep='first'):
+    """The search order of the locations (indices): '' first, then the registrations in order; a location registered again keeps the
+    place of its FIRST registration. (keep='last': the order a re-registration must NOT produce - used for coverage accounting only.)"""
+    seq = [0] + list(self.case['loc_seq'])
+    if keep == 'last':
+      seq = seq[::-1]
+    out = []
+    for l in seq:
+      if l not in out:
+        out.append(l)
+    return out if keep == 'first' else out[::-1]
+
+  def chosen_cell(self, fid, keep='first'):
     """The search model: locations outer (cwd first), readers inner."""
     f = self.case['files'][fid]
     if self.case['missing'] is not None and str(self.case['missing']) == fid:
@@ -310,7 +375,7 @@ class World:
     if f['kind'] == 'abs':
       return 'abs'
     cells = [tuple(c) for c in self.case['place'][fid]]
-    for l in range(self.case['nloc'] + 1):
+    for l in self.order(keep):
       for r in self.readers_at(l):
         if (l, r) in cells:
           return 'L%d/%s' % (l, r)
@@ -450,30 +515,45 @@ def run_package_moved(ctx, case):
 
 
 def run_namespace_directory(ctx, case):
-  """A relative name whose directory also exists (without __init__.py) under an entry of the Python path: a namespace package. The name is
-  still searched through the locations in order and, when nobody has it, reported by an IOError."""
+  """A relative name whose directory also exists (without __init__.py) under entries of the Python path: a namespace package, possibly spread
+  over several entries (portions). The name is still searched through the locations in order; a file that lives in ANY portion of the
+  package is reachable under its package-relative name; and when nobody has it, that is reported by an IOError."""
   import importlib
   import gin
   from gin import config as gc
   gin.clear_config()
+  for k, v in (('portions', 1), ('sub_in', [0]), ('file_in', [0]), ('depth', 2)):      # cases recorded before these fields existed
+    case.setdefault(k, v)
   _S['nsn'] = _S.get('nsn', 0) + 1
   ns = 'vfns%d_%s' % (_S['nsn'], ctx.uid)
   root = os.path.join(_S['root'], 'ns%d' % _S['nsn'])
-  pyroot, loc = os.path.join(root, 'py'), os.path.join(root, 'L1')
-  os.makedirs(os.path.join(pyroot, ns, 'sub'))
-  os.makedirs(os.path.join(loc, ns, 'sub'))
-  open(os.path.join(pyroot, ns, 'sub', 'present.gin'), 'w').write("c14f.a = 'in-namespace-directory'\n")
-  open(os.path.join(loc, ns, 'sub', 'late.gin'), 'w').write("c14f.a = 'in-later-location'\n")
+  pkgpath = [ns, 'sub'][:case['depth']]
+  pyroots, loc = [os.path.join(root, 'py%d' % k) for k in range(case['portions'])], os.path.join(root, 'L1')
+  for k, pyroot in enumerate(pyroots):
+    os.makedirs(os.path.join(pyroot, ns))                                              # every portion holds the outermost directory
+    if k in case['sub_in']:
+      os.makedirs(os.path.join(pyroot, *pkgpath), exist_ok=True)
+      open(os.path.join(pyroot, *(pkgpath + ['other%d.gin' % k])), 'w').write("c14f.b = 'unrelated'\n")
+    if k in case['file_in']:
+      open(os.path.join(pyroot, *(pkgpath + ['present.gin'])), 'w').write("c14f.a = 'in-namespace-directory-%d'\n" % k)
+  os.makedirs(os.path.join(loc, *pkgpath))
+  open(os.path.join(loc, *(pkgpath + ['late.gin'])), 'w').write("c14f.a = 'in-later-location'\n")
   fname = {'nowhere': 'nope.gin', 'later-location': 'late.gin', 'in-the-directory': 'present.gin'}[case['where']]
-  name = ('%s/sub/%s' if case['form'] == 'slash' or case['where'] == 'later-location' else '%s.sub/%s') % (ns, fname)
+  name = ('/' if case['form'] == 'slash' or case['where'] == 'later-location' else '.').join(pkgpath) + '/' + fname
   ctx.bucket('search:namespace-directory-on-python-path')
-  sys.path.insert(0, pyroot)
+  if case['portions'] > 1:
+    ctx.bucket('search:namespace-package-several-portions')
+  if case['where'] == 'in-the-directory' and case['file_in'][0] != case['sub_in'][0]:
+    ctx.bucket('search:namespace-package-file-in-later-portion')
+  sys.path[0:0] = pyroots
   importlib.invalidate_caches()
   gc._LOCATION_PREFIXES[:] = ['', loc]
   try:
     try:
       if case['via'] == 'include':
         gin.parse_config("include '%s'\n" % name)
+      elif case['via'] == 'files_and_bindings':
+        gin.parse_config_files_and_bindings([name], None, finalize_config=False)
       else:
         gin.parse_config_file(name)
       got = gin.query_parameter('c14f.a')
@@ -481,14 +561,22 @@ def run_namespace_directory(ctx, case):
       got = 'IOError'
     except Exception as e:  # pylint: disable=broad-except
       got = 'raised %s: %s' % (type(e).__name__, str(e)[:120])
-    want = {'nowhere': 'IOError', 'later-location': 'in-later-location', 'in-the-directory': 'in-namespace-directory'}[case['where']]
-    ctx.check(got == want, 'missing-file-not-IOError' if case['where'] == 'nowhere' else 'package-relative-name-resolved-elsewhere',
-              'name %s (its directory is a namespace package on the Python path; the file is %s): got %r, expected %r' % (name.replace(ns, 'NS'), case['where'], got, want))
-    ctx.fp('namespace-directory', case['form'], case['via'], case['where'])
+    # (which copy, when several portions hold the file, is not demanded: any of them)
+    want = {'nowhere': ['IOError'], 'later-location': ['in-later-location'],
+            'in-the-directory': ['in-namespace-directory-%d' % k for k in case['file_in']]}[case['where']]
+    ctx.count('oracle_evals')
+    ctx.check(got in want, 'missing-file-not-IOError' if case['where'] == 'nowhere' else 'package-relative-name-resolved-elsewhere',
+              'name %s (its directory is a namespace package on the Python path: %d portion(s), the innermost directory in portions %r, the file in %s): got %r, expected %s' %
+              (name.replace(ns, 'NS'), case['portions'], case['sub_in'], 'portions %r' % (case['file_in'],) if case['where'] == 'in-the-directory' else case['where'],
+               got, ' or '.join(map(repr, want))))
+    if case['where'] == 'nowhere':
+      ctx.check(not snap.store_nonempty(gc), 'missing-file-store-not-prefix', 'store after the unreadable package-relative name: %r' % (snap.store_nonempty(gc),))
+    ctx.fp('namespace-directory', case['form'], case['via'], case['where'], case['portions'], tuple(case['sub_in']), tuple(case['file_in']), case['depth'])
   finally:
     gc._LOCATION_PREFIXES[:] = ['']
-    if pyroot in sys.path:
-      sys.path.remove(pyroot)
+    for pyroot in pyroots:
+      if pyroot in sys.path:
+        sys.path.remove(pyroot)
     for m in [m for m in sys.modules if m == ns or m.startswith(ns + '.')]:
       del sys.modules[m]
     shutil.rmtree(root, ignore_errors=True)
@@ -506,7 +594,7 @@ def run_case(ctx, case):
   gin.clear_config()
   # cases recorded before the extension wave (replays) lack the newer fields
   for k, v in (('shape', 'two' if case['entry'] == 'files_and_bindings' else None), ('skip_arg', 'explicit'), ('print', False), ('decorator', [False] * case['nread']),
-               ('text_imports', [[], []]), ('extra', 'list'), ('unknown_in', '0')):
+               ('text_imports', [[], []]), ('extra', 'list'), ('unknown_in', '0'), ('loc_seq', list(range(1, case['nloc'] + 1))), ('dirs', {})):
     case.setdefault(k, v)
   for fid, f in case['files'].items():
     if f['kind'] in ('pkg-slash', 'pkg-dot') and case['place'][fid] == ['special']:
@@ -574,6 +662,17 @@ def _run(ctx, case, w, gin, gc):
         ctx.bucket('search:plain-file-before-package-reader')
     elif cell == 'abs':
       ctx.bucket('search:absolute-name')
+    if cell and cell != w.chosen_cell(fid, keep='last'):
+      ctx.bucket('search:re-registration-must-not-reorder')   # a location registered again must keep its place for this file to be found where it is
+    if cell and cell.startswith('L'):
+      order = w.order()
+      at = order.index(int(cell[1:].split('/')[0]))
+      if any(order.index(l) < at or (order.index(l) == at and not cell.endswith('/fs')) for l in w.dir_locations(fid)):
+        ctx.bucket('search:directory-of-that-name-passed-over')
+  if len(set(case['loc_seq'])) < len(case['loc_seq']):
+    ctx.bucket('locations:re-registered')
+  if 0 in case['loc_seq']:
+    ctx.bucket('locations:cwd-re-registered')
   if case['nloc'] >= 2:
     ctx.bucket('locations:3+')
   if case['nread'] == 2:
@@ -581,6 +680,7 @@ def _run(ctx, case, w, gin, gc):
   if any(case['decorator']):
     ctx.bucket('readers:decorator-form')
   ctx.fp(tuple(sorted((fid, f['kind'], tuple(st[0] for st in f['stmts'])) for fid, f in files.items())), case['nloc'], case['nread'],
+         tuple(case['loc_seq']), tuple(sorted((k, len(w.dir_locations(k))) for k in files)),
          tuple(sorted((k, len(v)) for k, v in case['place'].items())), case['missing'] is not None, entry, case['unknown'], case.get('shape'),
          case['unknown_in'] if case['unknown_in'] in ('S', 'X') else 'tree')
 
@@ -651,6 +751,8 @@ def _run(ctx, case, w, gin, gc):
   if not complete:
     ctx.bucket('missing:top-level' if w.chosen_cell('0') is None else ('missing:second-file' if str(case['missing']) == 'S' else 'missing:include'))
     missing_name = w.names[str(case['missing'])]
+    if w.dir_locations(str(case['missing'])):
+      ctx.bucket('missing:name-exists-only-as-directory')      # a directory is not something anybody can read: the outcome is the same IOError
     if not ctx.check(isinstance(exc, IOError), 'missing-file-not-IOError', 'file %r unreadable: got %r' % (missing_name, exc)):
       return
     msg = str(exc)
